@@ -34,7 +34,7 @@ def main(argv):
     scratch = tempfile.mkdtemp(prefix="vfcov_")
     results = {}
     if not skip_run:
-        for f in glob.glob(os.path.join(bdir, "*.gcda")): os.unlink(f)
+        for f in glob.glob(os.path.join(build.BUILD_ROOT, "*-cov", "*.gcda")): os.unlink(f)
         for p in props:
             t0 = time.time()
             env = dict(os.environ, VERIF_COV="1", VERIF_OUT=scratch, VERIF_TIER=tier)
@@ -49,8 +49,9 @@ def main(argv):
     funcs = collections.defaultdict(lambda: collections.defaultdict(int))       # file -> (name, start_line) -> count
     per_variant = {}
     gw = tempfile.mkdtemp(prefix="vfgcov_")
-    for gcda in sorted(glob.glob(os.path.join(bdir, "*.gcda"))):
-        base = os.path.basename(gcda)
+    # every coverage build directory (the harness may have been edited while the checks ran: a new directory per harness hash; same allocator tree)
+    for gcda in sorted(glob.glob(os.path.join(build.BUILD_ROOT, "*-cov", "*.gcda"))):
+        base = os.path.basename(os.path.dirname(gcda))[:6] + "/" + os.path.basename(gcda)
         r = subprocess.run(["gcov", "--json-format", "--stdout", "-b", gcda], cwd=gw, stdout=subprocess.PIPE, stderr=subprocess.DEVNULL)
         if r.returncode != 0 or not r.stdout: continue
         try: data = json.loads(r.stdout)
@@ -108,7 +109,7 @@ def main(argv):
     print("total: lines %d/%d  branches %d/%d  functions %d/%d   -> %s" % (tot[0], tot[1], tot[2], tot[3], tot[4], tot[5], os.path.join(out, "SUMMARY.md")))
     shutil.rmtree(scratch, ignore_errors=True)
     if not keep and not skip_run:
-        shutil.rmtree(bdir, ignore_errors=True)
+        for d in glob.glob(os.path.join(build.BUILD_ROOT, "*-cov")): shutil.rmtree(d, ignore_errors=True)
     return 0
 
 if __name__ == "__main__":
